@@ -4,5 +4,210 @@ Require Import H4.ToolsCInt H4.gen.Gen_Tools H4.ToolsSpec H4.ToolsModel.
 Import ListNotations.
 Local Open Scope Z_scope.
 
-Lemma placeholder_c19 : ad_count DFNT_INT8 (opts0 1) [-128] [127] = 1.
-Proof. vm_compute. reflexivity. Qed.
+(* ------------------------------------------------------------------------------------------ *)
+(** * C integer conversions *)
+
+Ltac wrapnum :=
+  unfold swrap, uwrap;
+  change (2 ^ (8 - 1)) with 128; change (2 ^ 8) with 256;
+  change (2 ^ (16 - 1)) with 32768; change (2 ^ 16) with 65536;
+  change (2 ^ (32 - 1)) with 2147483648; change (2 ^ 32) with 4294967296;
+  change (2 ^ (64 - 1)) with 9223372036854775808; change (2 ^ 64) with 18446744073709551616.
+
+Lemma swrap8_range z : -128 <= swrap 8 z <= 127.
+Proof. wrapnum. Z.to_euclidean_division_equations. lia. Qed.
+Lemma swrap16_range z : -32768 <= swrap 16 z <= 32767.
+Proof. wrapnum. Z.to_euclidean_division_equations. lia. Qed.
+Lemma swrap32_range z : -2147483648 <= swrap 32 z <= 2147483647.
+Proof. wrapnum. Z.to_euclidean_division_equations. lia. Qed.
+
+Lemma swrap8_id z : -128 <= z <= 127 -> swrap 8 z = z.
+Proof. intros. wrapnum. Z.to_euclidean_division_equations. lia. Qed.
+Lemma swrap16_id z : -32768 <= z <= 32767 -> swrap 16 z = z.
+Proof. intros. wrapnum. Z.to_euclidean_division_equations. lia. Qed.
+Lemma swrap32_id z : -2147483648 <= z <= 2147483647 -> swrap 32 z = z.
+Proof. intros. wrapnum. Z.to_euclidean_division_equations. lia. Qed.
+Lemma swrap64_id z : -9223372036854775808 <= z <= 9223372036854775807 -> swrap 64 z = z.
+Proof. intros. wrapnum. Z.to_euclidean_division_equations. lia. Qed.
+
+(** reading through a signed pointer is injective on any window of 2^w values (both the signed and the
+    unsigned type of that width) *)
+Lemma swrap8_inj x y : Z.abs (x - y) < 256 -> swrap 8 x = swrap 8 y -> x = y.
+Proof. wrapnum. intros. Z.to_euclidean_division_equations. lia. Qed.
+Lemma swrap16_inj x y : Z.abs (x - y) < 65536 -> swrap 16 x = swrap 16 y -> x = y.
+Proof. wrapnum. intros. Z.to_euclidean_division_equations. lia. Qed.
+Lemma swrap32_inj x y : Z.abs (x - y) < 4294967296 -> swrap 32 x = swrap 32 y -> x = y.
+Proof. wrapnum. intros. Z.to_euclidean_division_equations. lia. Qed.
+
+(* ------------------------------------------------------------------------------------------ *)
+(** * The difference expressions of array_diff (as regenerated from hdiff_array.c) *)
+
+Lemma ad8_diff_abs a b : -128 <= a <= 127 -> -128 <= b <= 127 -> ad8_diff a b = Z.abs (a - b).
+Proof. intros. unfold ad8_diff. rewrite (swrap32_id (a - b)) by lia. apply swrap32_id. lia. Qed.
+
+Lemma ad16_diff_abs a b : -32768 <= a <= 32767 -> -32768 <= b <= 32767 -> ad16_diff a b = Z.abs (a - b).
+Proof. intros. unfold ad16_diff. rewrite (swrap32_id (a - b)) by lia. apply swrap32_id. lia. Qed.
+
+Lemma ad32_diff_sat a b : -2147483648 <= a <= 2147483647 -> -2147483648 <= b <= 2147483647 ->
+  ad32_diff a b = Z.min (Z.abs (a - b)) 2147483647.
+Proof.
+  intros. unfold ad32_diff. rewrite (swrap64_id (a - b)) by lia. rewrite (swrap64_id (Z.abs (a - b))) by lia.
+  unfold b2z. destruct (Z.ltb_spec (Z.abs (a - b)) 2147483647); simpl.
+  - rewrite swrap32_id by lia. lia.
+  - rewrite swrap32_id by lia. lia.
+Qed.
+
+(* ------------------------------------------------------------------------------------------ *)
+(** * array_diff without options reports exactly the positions whose values differ *)
+
+Definition flagged (br : branch) (x y : Z) : bool :=
+  negb (br_over br (br_diff br (reinterp (br_sg br) (br_bits br) x) (reinterp (br_sg br) (br_bits br) y)) 0 =? 0).
+
+Fixpoint flagged_positions (br : branch) (i : Z) (a b : list Z) : list Z :=
+  match a, b with
+  | x :: a', y :: b' => if flagged br x y then i :: flagged_positions br (i + 1) a' b' else flagged_positions br (i + 1) a' b'
+  | _, _ => []
+  end.
+
+Lemma ad_elt_plain br m i x y n pr :
+  ad_elt br (opts0 m) i x y n pr = if flagged br x y then (n + 1, if n + 1 <=? m then i :: pr else pr) else (n, pr).
+Proof. unfold ad_elt, flagged, opts0. simpl. reflexivity. Qed.
+
+Lemma ad_loop_count br m : forall a b i n pr,
+  fst (ad_loop br (opts0 m) i a b n pr) = n + Z.of_nat (length (flagged_positions br i a b)).
+Proof.
+  induction a as [|x a IH]; intros b i n pr.
+  - simpl. lia.
+  - destruct b as [|y b]; [simpl; lia|].
+    cbn [ad_loop flagged_positions]. rewrite ad_elt_plain.
+    destruct (flagged br x y).
+    + rewrite IH. cbn [length]. lia.
+    + apply IH.
+Qed.
+
+Lemma ad_loop_full br m : forall a b i n pr, n + Z.of_nat (length a) <= m ->
+  ad_loop br (opts0 m) i a b n pr = (n + Z.of_nat (length (flagged_positions br i a b)), rev pr ++ flagged_positions br i a b).
+Proof.
+  induction a as [|x a IH]; intros b i n pr Hm.
+  - simpl. rewrite app_nil_r. f_equal. lia.
+  - destruct b as [|y b]; [simpl; rewrite app_nil_r; f_equal; lia|].
+    cbn [ad_loop flagged_positions]. rewrite ad_elt_plain. cbn [length] in Hm.
+    destruct (flagged br x y).
+    + assert (E : n + 1 <=? m = true) by (apply Z.leb_le; lia). rewrite E.
+      rewrite IH by lia. cbn [length rev]. rewrite <- app_assoc. simpl. f_equal. lia.
+    + apply IH. lia.
+Qed.
+
+Lemma over0 d : (negb (b2z (0 <? d) =? 0)) = (0 <? d).
+Proof. destruct (0 <? d); reflexivity. Qed.
+
+Lemma flagged_br8 x y : Z.abs (x - y) < 256 -> flagged br8 x y = negb (x =? y).
+Proof.
+  intros H. unfold flagged, br8; cbn [br_over br_diff br_sg br_bits]. unfold ad8_elt_signed, ad8_elt_bits, reinterp, ad8_over.
+  rewrite over0. pose proof (swrap8_range x). pose proof (swrap8_range y).
+  rewrite ad8_diff_abs by lia.
+  destruct (Z.eqb_spec x y) as [->|N]; simpl.
+  - rewrite Z.sub_diag. reflexivity.
+  - apply Z.ltb_lt. assert (swrap 8 x <> swrap 8 y) by (intro E; apply N, swrap8_inj; assumption). lia.
+Qed.
+
+Lemma flagged_br16 x y : Z.abs (x - y) < 65536 -> flagged br16 x y = negb (x =? y).
+Proof.
+  intros H. unfold flagged, br16; cbn [br_over br_diff br_sg br_bits]. unfold ad16_elt_signed, ad16_elt_bits, reinterp, ad16_over.
+  rewrite over0. pose proof (swrap16_range x). pose proof (swrap16_range y).
+  rewrite ad16_diff_abs by lia.
+  destruct (Z.eqb_spec x y) as [->|N]; simpl.
+  - rewrite Z.sub_diag. reflexivity.
+  - apply Z.ltb_lt. assert (swrap 16 x <> swrap 16 y) by (intro E; apply N, swrap16_inj; assumption). lia.
+Qed.
+
+Lemma flagged_br32 x y : Z.abs (x - y) < 4294967296 -> flagged br32 x y = negb (x =? y).
+Proof.
+  intros H. unfold flagged, br32; cbn [br_over br_diff br_sg br_bits]. unfold ad32_elt_signed, ad32_elt_bits, reinterp, ad32_over.
+  rewrite over0. pose proof (swrap32_range x). pose proof (swrap32_range y).
+  rewrite ad32_diff_sat by lia.
+  destruct (Z.eqb_spec x y) as [->|N]; simpl.
+  - rewrite Z.sub_diag. reflexivity.
+  - apply Z.ltb_lt. assert (swrap 32 x <> swrap 32 y) by (intro E; apply N, swrap32_inj; assumption). lia.
+Qed.
+
+Ltac c19_one br lem :=
+  let E := fresh "E" in intros E; injection E as <- <-; exists br; split; [reflexivity | intros; apply lem; lia].
+
+(** every integer number type selects a branch whose flag is "the values differ" on the type's range *)
+Lemma kind_of_ranged nt lo hi : nt_range nt = Some (lo, hi) ->
+  exists br, ad_kind nt = ADInt br /\ forall x y, in_range lo hi x -> in_range lo hi y -> flagged br x y = negb (x =? y).
+Proof.
+  unfold nt_range, nt_ranges, in_range. cbn [nt_range_in].
+  destruct (Z.eqb_spec nt 20) as [->|_]; [c19_one br8 flagged_br8|].
+  destruct (Z.eqb_spec nt 21) as [->|_]; [c19_one br8 flagged_br8|].
+  destruct (Z.eqb_spec nt 3) as [->|_]; [c19_one br8 flagged_br8|].
+  destruct (Z.eqb_spec nt 4) as [->|_]; [c19_one br8 flagged_br8|].
+  destruct (Z.eqb_spec nt 22) as [->|_]; [c19_one br16 flagged_br16|].
+  destruct (Z.eqb_spec nt 23) as [->|_]; [c19_one br16 flagged_br16|].
+  destruct (Z.eqb_spec nt 24) as [->|_]; [c19_one br32 flagged_br32|].
+  destruct (Z.eqb_spec nt 25) as [->|_]; [c19_one br32 flagged_br32|].
+  discriminate.
+Qed.
+
+Lemma flagged_positions_spec br lo hi :
+  (forall x y, in_range lo hi x -> in_range lo hi y -> flagged br x y = negb (x =? y)) ->
+  forall a b i, Forall (in_range lo hi) a -> Forall (in_range lo hi) b ->
+  flagged_positions br i a b = spec_diff_positions i a b.
+Proof.
+  intros F. induction a as [|x a IH]; intros b i Ha Hb; [reflexivity|].
+  destruct b as [|y b]; [reflexivity|].
+  inversion Ha; inversion Hb; subst. cbn [flagged_positions spec_diff_positions].
+  rewrite F by assumption. destruct (x =? y); simpl; rewrite IH by assumption; reflexivity.
+Qed.
+
+Lemma array_diff_refines_spec_lemma : forall nt lo hi a b m,
+  nt_range nt = Some (lo, hi) -> Forall (in_range lo hi) a -> Forall (in_range lo hi) b ->
+  Z.of_nat (length a) <= m ->
+  array_diff_m nt (opts0 m) a b = (spec_count a b, spec_diff_positions 0 a b).
+Proof.
+  intros nt lo hi a b m R Ha Hb Hm. destruct (kind_of_ranged _ _ _ R) as (br & K & F).
+  unfold array_diff_m. rewrite K. rewrite ad_loop_full by lia.
+  rewrite (flagged_positions_spec br lo hi F) by assumption. reflexivity.
+Qed.
+
+Lemma array_diff_count_lemma : forall nt lo hi a b m,
+  nt_range nt = Some (lo, hi) -> Forall (in_range lo hi) a -> Forall (in_range lo hi) b ->
+  ad_count nt (opts0 m) a b = spec_count a b.
+Proof.
+  intros nt lo hi a b m R Ha Hb. destruct (kind_of_ranged _ _ _ R) as (br & K & F).
+  unfold ad_count, array_diff_m. rewrite K. rewrite ad_loop_count.
+  rewrite (flagged_positions_spec br lo hi F) by assumption. reflexivity.
+Qed.
+
+Lemma spec_positions_nil_iff : forall a b i, length a = length b -> (spec_diff_positions i a b = [] <-> a = b).
+Proof.
+  induction a as [|x a IH]; intros [|y b] i L; try discriminate; [tauto|].
+  cbn [spec_diff_positions]. injection L as L. destruct (Z.eqb_spec x y) as [->|N].
+  - rewrite (IH b (i + 1) L). split; [intros ->; reflexivity | intros E; injection E; auto].
+  - split; [discriminate | intros E; injection E; intros; contradiction].
+Qed.
+
+Lemma spec_count_zero_iff a b : length a = length b -> (spec_count a b = 0 <-> a = b).
+Proof.
+  intros L. unfold spec_count. rewrite <- (spec_positions_nil_iff a b 0 L).
+  destruct (spec_diff_positions 0 a b); simpl; split; intros; try reflexivity; try discriminate; lia.
+Qed.
+
+Lemma array_diff_zero_iff_equal_lemma : forall nt lo hi a b m,
+  nt_range nt = Some (lo, hi) -> Forall (in_range lo hi) a -> Forall (in_range lo hi) b -> length a = length b ->
+  (ad_count nt (opts0 m) a b = 0 <-> a = b).
+Proof.
+  intros. rewrite (array_diff_count_lemma nt lo hi) by assumption. apply spec_count_zero_iff. assumption.
+Qed.
+
+(** the code before the repairs violates the statement: witnesses *)
+Lemma ad8_orig_refuted_lemma : exists a b, a <> b /\ Forall (in_range (-128) 127) a /\ Forall (in_range (-128) 127) b /\
+  length a = length b /\ ad_count_orig br8_orig a b = 0.
+Proof. exists [-128], [127]. repeat split; try (repeat constructor; unfold in_range; lia); discriminate. Qed.
+Lemma ad16_orig_refuted_lemma : exists a b, a <> b /\ Forall (in_range (-32768) 32767) a /\ Forall (in_range (-32768) 32767) b /\
+  length a = length b /\ ad_count_orig br16_orig a b = 0.
+Proof. exists [-32768], [32767]. repeat split; try (repeat constructor; unfold in_range; lia); discriminate. Qed.
+Lemma ad32_orig_refuted_lemma : exists a b, a <> b /\ Forall (in_range (-2147483648) 2147483647) a /\
+  Forall (in_range (-2147483648) 2147483647) b /\ length a = length b /\ ad_count_orig br32_orig a b = 0.
+Proof. exists [0], [-2147483648]. repeat split; try (repeat constructor; unfold in_range; lia); discriminate. Qed.
